@@ -1011,6 +1011,9 @@ class Interp:
         every pot keeps an eligible live player (DESIGN 3-8; F1 is a known
         finding pinned by the repository's own test)."""
         s = self.state
+        if s.mode == Mode.TOURNAMENT and s.all_in_status:
+            # in tournament mode an all-in showdown is played face up
+            return False
         return sum(s.statuses) >= 2
 
     def _tables_a_hand(self, i, shown):
@@ -1019,7 +1022,7 @@ class Interp:
         tabled cards still make a hand (before the final street the engine
         keeps the face-down cards, so any subset is fine)."""
         s = self.state
-        if s.street is not s.streets[-1]:
+        if s.street_index != len(s.streets) - 1:
             return True
         for j in s.board_indices:
             board = tuple(s.get_board_cards(j))
@@ -1041,7 +1044,7 @@ class Interp:
         unknown = not cards_known(hole)
         m = a % 6
         mode_ = self.cfg.get('auto_show')
-        final = s.street is s.streets[-1]
+        final = s.street_index == len(s.streets) - 1
         if mode_ == 'partial_first' and not unknown and not final \
                 and s.mode == Mode.CASH_GAME and len(hole) > 1 and a % 2:
             # at an all-in showdown before the last street a player tables
